@@ -3,6 +3,7 @@ package sim
 import (
 	"encoding/csv"
 	"encoding/json"
+	"encoding/xml"
 	"fmt"
 	"io"
 	"strconv"
@@ -36,6 +37,8 @@ func genRecords(r *Rand, format string, fileIndex int) string {
 		return GenTOML(r, DocID(r, fileIndex, 0)) + "\n[tail]\nlast = \"" + Pick(r, wordPool) + "\"\nn = " + strconv.Itoa(r.Range(0, 9)) + "\n"
 	case "lua":
 		return GenLua(r, DocID(r, fileIndex, 0))
+	case "xml":
+		return GenXML(r, DocID(r, fileIndex, 0))
 	}
 	return ""
 }
@@ -96,6 +99,20 @@ func breakRecords(r *Rand, format, text string) string {
 			lines[k] = "a = 1 2\n"
 		}
 		return strings.Join(lines, "")
+	case "xml":
+		// a file cut short: elements that are never closed (data-losing damage only)
+		switch r.Intn(3) {
+		case 0:
+			return strings.Replace(text, "</root>", "", 1)
+		case 1:
+			if i := strings.Index(text, "</id>"); i > 0 {
+				return text[:i]
+			}
+			return text[:len(text)/2]
+		default:
+			cut := r.Range(len(text)/3, len(text)-8)
+			return text[:cut]
+		}
 	case "lua":
 		switch r.Intn(3) {
 		case 0:
@@ -136,6 +153,17 @@ func MalformedFor(format, text string) bool {
 	case "toml":
 		var v map[string]any
 		return toml.Unmarshal([]byte(text), &v) != nil
+	case "xml":
+		d := xml.NewDecoder(strings.NewReader(text))
+		for {
+			_, err := d.Token()
+			if err == io.EOF {
+				return false
+			}
+			if err != nil {
+				return true
+			}
+		}
 	case "lua":
 		ls := lua.NewState(lua.Options{SkipOpenLibs: true})
 		defer ls.Close()
